@@ -5,6 +5,7 @@ mod window;
 pub mod conn;
 mod rot;
 mod nonce;
+pub mod hs;
 mod codec;
 mod beacon;
 mod keys;
@@ -25,6 +26,8 @@ fn dispatch(args: &[String]) -> i32 {
         ("rot", "random") => rot::run_random(n(3), n(4) as i64, a(5)),
         ("nonce", "families") => nonce::families(a(3)),
         ("nonce", "life") => nonce::life(n(3), n(4), a(5)),
+        ("hs", "sched") => hs::run_sched(a(3), a(4), a(5), a(6)),
+        ("hs", "random") => hs::run_random(n(3), n(4), a(5), a(6), a(7)),
         ("codec", _) => codec::run(&args[2..]),
         ("beacon", _) => beacon::run(&args[2..]),
         ("keys", _) => keys::run(&args[2..]),
